@@ -165,6 +165,22 @@ theorem C10_length_sites :
       ("mjml/components.(*MJWrapperComponent).getEffectiveWidth", "styles.ParsePixel", "2"),
       ("mjml/components.computeVMLPosition", "strconv.ParseFloat", "1")] := by decide
 
+/-- where `ParseSpacing` accepts a shorthand (one, two or four values) its four sides are CSS's -/
+theorem C10_spacing_is_css (s : List Gomjml.Amp.B) (t r b l : Gomjml.Lengths.Dec) (h : Gomjml.Lengths.spacing s = .ok t r b l) :
+    ∃ vs, (Gomjml.Lengths.fields s).map Gomjml.Lengths.parsePixel = vs.map some ∧ Gomjml.Lengths.cssSides vs = some (t, r, b, l) :=
+  Gomjml.Lengths.spacing_css s t r b l h
+
+/-- **one horizontal rule for every component**: the image computes its horizontal padding its own way (`ParseSpacing`, and
+    the three-value form by hand), every other component through `ParseHorizontalSpacing`; on every shorthand whose values are
+    numbers of the modelled grammar the two give the same pair, CSS's left and right, and both give nothing for a count other
+    than one to four -/
+theorem C10_image_shorthand_is_horizontal (s : List Gomjml.Amp.B) (vs : List Gomjml.Lengths.Dec) (hs : s ≠ [])
+    (hv : (Gomjml.Lengths.fields s).map Gomjml.Lengths.parsePixel = vs.map some) :
+    Gomjml.Lengths.hspacing s = Gomjml.Lengths.hsel vs ∧
+    Gomjml.Lengths.imageShorthand s =
+      (match Gomjml.Lengths.hsel vs with | some (l, r) => Gomjml.Lengths.HRes.pair l r | none => Gomjml.Lengths.HRes.zero) :=
+  Gomjml.Lengths.image_shorthand_is_horizontal s vs hs hv
+
 /-! ### the pixel-width strings kept as constants (`getPixelWidthString`) -/
 
 /-- the Model of `getPixelWidthString` over its regenerated case table: a listed width returns its constant, any other the
